@@ -188,7 +188,6 @@ def _c19(tier):
         H("c19_write_u8_pep", wu + "poll; event; poll", 350, leak=True),
         H("c19_write_u8_pd", wu + "poll; write future dropped mid-flight", 150, leak=True),
         H("c19_write_u8_ped", wu + "poll; event; dropped with the completion queued", 200, leak=True),
-        H("c19_write_u8_len0_pc", "zero-length stream write (u8): poll; cancel()", 150, leak=True),
         H("c19_write_val_pd", wv + "poll; dropped mid-flight (every untransferred value lifted back and dropped once)", 400, leak=True),
         H("c19_read_u8_pc", ru + "poll; cancel()", 150, leak=True),
         H("c19_read_u8_pec", ru + "poll; event; cancel() racing the queued completion", 200, leak=True),
@@ -196,12 +195,13 @@ def _c19(tier):
         H("c19_read_u8_pd", ru + "poll; read future dropped mid-flight", 120, leak=True),
         H("c19_read_u8_ped", ru + "poll; event; dropped with the completion queued", 100, leak=True),
         H("c19_read_val_pd", rv + "poll; dropped mid-flight (every received item lifted once and dropped once)", 300, leak=True),
-        H("c19_next_u8", "RawStreamReader::next (capacity 1): item, or None at end of stream", 450, leak=True),
     ]
     if tier == "thorough":
         w3 = "stream write of 3 items, canonical payload: "
         r3 = "stream read into capacity 3, canonical payload: "
         hs += [
+            H("c19_write_u8_len0_pc", "zero-length stream write (u8): poll; cancel()", 150, leak=True),
+            H("c19_next_u8", "RawStreamReader::next (capacity 1): item, or None at end of stream", 450, leak=True),
             H("c19_deep_abibuf_u8_len2", ab + "u8, 2 items", 40, stubs=False, leak=True),
             H("c19_deep_abibuf_val_len2", ab + "lifted payload, 2 items", 50, stubs=False, leak=True),
             H("c19_write_val_pc", wv + "poll; cancel() (needs ~10 GB)", 900, leak=True),
@@ -437,8 +437,29 @@ _slot_guard = threading.Lock()
 
 
 def _crate_dir() -> str:
-    key = hashlib.md5(os.path.abspath(vlib.REPO).encode()).hexdigest()[:8]
-    return os.path.join(WORK, "crate_" + key)
+    """One build directory per (repository path, harness source text): concurrent `check` runs never see a
+    half-updated snapshot, identical inputs share the directory."""
+    h = hashlib.md5(os.path.abspath(vlib.REPO).encode())
+    srcdir = os.path.join(CRATE_SRC, "src")
+    for n in sorted(os.listdir(srcdir)):
+        if n.endswith(".rs"):
+            h.update(n.encode())
+            h.update(open(os.path.join(srcdir, n), "rb").read())
+    h.update(open(os.path.join(CRATE_SRC, "Cargo.toml"), "rb").read())
+    return os.path.join(WORK, "crate_" + h.hexdigest()[:10])
+
+
+def _gc_crate_dirs(keep: str) -> None:
+    """Drop build directories of older harness sources (unused for more than 6 hours)."""
+    now = time.time()
+    for n in os.listdir(WORK):
+        d = os.path.join(WORK, n)
+        if n.startswith("crate_") and d != keep and os.path.isdir(d):
+            try:
+                if now - os.path.getmtime(os.path.join(d, "Cargo.toml")) > 6 * 3600:
+                    shutil.rmtree(d, ignore_errors=True)
+            except OSError:
+                pass
 
 
 GEN_NOTES = {}
@@ -460,6 +481,7 @@ def prepare_crate() -> str:
     """(Re)generate the build directory for vlib.REPO."""
     d = _crate_dir()
     os.makedirs(d, exist_ok=True)
+    _gc_crate_dirs(d)
     cargo = open(os.path.join(CRATE_SRC, "Cargo.toml")).read()
     cargo = cargo.replace('path = "/repo/crates/guest-rust"', 'path = "%s/crates/guest-rust"' % os.path.abspath(vlib.REPO))
     tmp = os.path.join(d, "Cargo.toml.tmp")
@@ -584,7 +606,9 @@ def parse(out: str, rc: int) -> dict:
 def is_model_limit(f: dict) -> bool:
     d = f["description"]
     return (".unwind." in f["id"] or d.startswith("unwinding assertion") or "unsupported_construct" in f["id"]
-            or "is not currently supported by Kani" in d or "recursion unwinding" in d)
+            or "is not currently supported by Kani" in d or "recursion unwinding" in d
+            # assertions about the harness itself (its own bounds / script sanity), not about the code under test
+            or d.startswith("harness bound") or d.startswith("harness:") or d.startswith("harness error"))
 
 
 def norm(desc: str) -> str:
@@ -613,6 +637,33 @@ def alias_lint(slot_dir: str, h: dict):
     mod = importlib.util.module_from_spec(spec)
     spec.loader.exec_module(mod)
     return ["%s touches %s" % (fn, sym) for (fn, sym) in sorted(mod.lint(path))]
+
+
+def native_playback(slot_dir: str, crate: str, h: dict, test_src: str, env: dict) -> dict:
+    """Compile the concrete-playback unit test Kani printed into a scratch copy of the harness crate and run it
+    NATIVELY (`cargo kani playback`; kani::any() then yields the recorded values).  kani::stub attributes do not
+    exist in a native build, so a run that reaches a stubbed function diverges (panics in the library's shim)."""
+    m = re.search(r"fn (kani_concrete_playback_\w+)\(", test_src or "")
+    if not m:
+        return {"verdict": "none", "detail": "no playback test printed"}
+    name = m.group(1)
+    pb = slot_dir + "_pb"
+    os.makedirs(os.path.join(pb, "src"), exist_ok=True)
+    for n in ("Cargo.toml", "Cargo.lock"):
+        shutil.copy(os.path.join(crate, n), os.path.join(pb, n))
+    for n in os.listdir(os.path.join(crate, "src")):
+        shutil.copy(os.path.join(crate, "src", n), os.path.join(pb, "src", n))
+    with open(os.path.join(pb, "src", h["module"] + ".rs"), "a") as f:
+        f.write("\n// appended by engines/rtkani.py: native replay of a Kani counterexample\n" + test_src[test_src.index("#[test]"):] + "\n")
+    log = os.path.join(WORK, "logs", "%s.native.log" % h["name"])
+    rc, out, dt = vlib.run_cmd(["cargo", "kani", "playback", "-Z", "concrete-playback", "--", name], cwd=pb, env=env, timeout=900,
+                               mem_gb=MEM_GB, log=log)
+    if re.search(r"test result: ok\. 1 passed", out):
+        return {"verdict": "pass", "detail": "native run of the recorded inputs completes without panic", "test": name}
+    pm = re.search(r"panicked at ([^\n]*):\n([^\n]*)", out)
+    if "test result: FAILED" in out or pm:
+        return {"verdict": "panic", "detail": (pm.group(2) if pm else "test failed")[:300], "where": pm.group(1) if pm else "", "test": name}
+    return {"verdict": "none", "detail": "native playback did not run (rc=%s)" % rc, "test": name}
 
 
 def run_harness(prop: str, h: dict, crate: str, timeout: int, env: dict) -> dict:
@@ -651,6 +702,11 @@ def run_harness(prop: str, h: dict, crate: str, timeout: int, env: dict) -> dict
             res["playback_test"] = pm.group(1) if pm else None
             res["playback_status"] = res2["status"]
             res["playback_failed"] = res2.get("failed_real", [])
+            if res2["status"] == "failed" and res["playback_test"]:
+                try:
+                    res["native"] = native_playback(slot.dir, crate, h, res["playback_test"], env)
+                except Exception as e:  # noqa: BLE001
+                    res["native"] = {"verdict": "none", "detail": "native playback error: %r" % e}
             res["wall_s"] = round(dt + dt2, 1)
             if res2.get("cpu_s") and res.get("cpu_s"):
                 res["cpu_s"] += res2["cpu_s"]
@@ -731,9 +787,26 @@ def run(prop_id: str, tier: str, seed: int) -> vlib.Outcome:
                        "cmd": r.get("cmd"), "leak_check": bool(h.get("leak")),
                        "how_to_replay": "/verif/check %s --replay <this file>" % prop_id}
             path = vlib.write_replay(prop_id, "rtkani_" + h["name"], payload)
-            native = "replay: kani trace only (harness uses kani::stub; the stubs do not exist in a native build)" if h.get("stubs", True) \
-                else "replay: kani trace only"
-            for d in sorted(set(first) & again)[:4]:
+            nat = r.get("native") or {"verdict": "none", "detail": "not attempted"}
+            common = sorted(set(first) & again)
+            user_asserts = all(".assertion." in first[d]["id"] and not first[d]["location"].startswith("../") for d in common)
+            if nat["verdict"] == "panic" and any(d in nat["detail"] for d in common):
+                native = "replay: reproduced natively (cargo kani playback, test %s panics with the same assertion)" % nat.get("test")
+            elif nat["verdict"] == "panic":
+                native = ("replay: kani trace only (the native run of the recorded inputs diverges -- stubs do not exist natively -- and panics with: %s)"
+                          % nat["detail"][:120])
+            elif nat["verdict"] == "pass" and user_asserts:
+                out.inconclusive.append("%s: Kani fails \"%s\" twice, but a native run of the recorded inputs (cargo kani playback) passes the same "
+                                        "assertion -- model artefact suspected, not reported as a violation" % (h["name"], "; ".join(common)[:160]))
+                continue
+            elif nat["verdict"] == "pass":
+                native = "replay: kani trace only (a native run of the recorded inputs completes; the failed check is a memory-model check that a native run cannot observe)"
+            else:
+                native = "replay: kani trace only (%s)" % nat["detail"][:100]
+            payload["native_playback"] = nat
+            with open(path, "w") as f:
+                json.dump(payload, f, indent=1, sort_keys=True, default=str)
+            for d in common[:4]:
                 f = first[d]
                 out.violations.append(vlib.Violation(
                     role=role_of(prop_id, h, f),
